@@ -105,6 +105,9 @@ def check_C05(ctx, unit, config=""):
     ctx.rule("L1.policy-unlocked", "every call that reaches Policy::map/unmap is made with a definitely empty lockset", 6)
     ctx.rule("L2.protected-field", "each access to a lock-protected pool field happens with its mutex definitely held "
              "(exception: an object still unpublished in this activation)", 20)
+    ctx.rule("L5.update-in-one-section", "a protected pool field is never assigned a value computed from the result of a member that "
+             "takes the protecting mutex itself (read-modify-write split over two critical sections loses updates); the counters are "
+             "updated by compound assignment under one acquisition", 1)
     ctx.rule("L3.guards-only", "pool code never calls a mutex method directly: locks are taken only through RAII guards "
              "with automatic storage", 1)
     ctx.rule("L4.lock-order", "lock-order graph over the pool's mutex classes (edges: mutex held -> mutex acquired, "
@@ -115,6 +118,7 @@ def check_C05(ctx, unit, config=""):
         reach = reach_summary(unit, fns, lambda n: is_policy_call(n, pol, ("map", "unmap")))
         acq = acquire_summary(unit, fns)
         l3bad = []
+        l5bad, n_l5 = [], [0]
         las = {f.did: LockAnalysis(f, fresh_sources=FRESH_SOURCES) for f in fns}
         # Entry locksets of internal helpers: intersection over all in-pool call sites of
         # (locks rooted at `this` definitely held there + the caller's own entry lockset).
@@ -214,6 +218,39 @@ def check_C05(ctx, unit, config=""):
                              bad is None, n.loc,
                              ("access to %s without %s held (%s)" % (canon(n), L2_TABLE[key][1][1], bad)) if bad else
                              "%s accessed with %s held (instantiation %s)" % (canon(n), L2_TABLE[key][1][1], inst), f)
+            # L5: the new value of a protected field is computed from what is read in the SAME critical section -- not from
+            # the result of a member that takes the protecting mutex itself (a self-locking accessor: its critical section has
+            # ended when the store happens, and an update made in between is lost)
+            from . import rules_atomic as RA_
+            inits_ = None
+            for n in f.events():
+                if n.kind != "BinaryOperator" or n.op != "=":
+                    continue
+                l = n.children[0].strip()
+                if l.kind != "MemberExpr" or l.get("mk") != "Field" or (l.get("mc"), l.m) not in L2_TABLE:
+                    continue
+                if f.kind == "ctor" and f.owner_cls == l.get("mc"):
+                    continue
+                prot = L2_TABLE[(l.get("mc"), l.m)][1]
+                prot = (prot[0], prot[1][-1] if isinstance(prot[1], tuple) else prot[1])
+                if inits_ is None:
+                    inits_ = RA_.local_inits(f)
+                seen_, work_, stale_ = set(), [n.children[1]], None
+                while work_ and stale_ is None:
+                    x = work_.pop()
+                    for y in x.walk():
+                        if y.is_call():
+                            t = call_targets(unit, y)
+                            if t is not None and prot[1] in acq.get(t.did, set()):
+                                stale_ = "%s() at %s" % (y.callee["n"], y.loc)
+                                break
+                        if y.kind == "DeclRefExpr" and y.get("local") and y.d["d"] in inits_ and y.d["d"] not in seen_:
+                            seen_.add(y.d["d"])
+                            work_.append(inits_[y.d["d"]])
+                n_l5[0] += 1
+                if stale_:
+                    l5bad.append("%s: %s.%s is assigned at %s from the result of %s, which takes %s itself: the read and the store are "
+                                 "two critical sections, an update in between is lost" % (f.name, l.get("mc").split("::")[-1], l.m, n.loc, stale_, prot[1]))
             # L3
             for n in f.events():
                 if n.kind == "CXXMemberCallExpr" and n.callee and n.callee.get("cls") == "wit::Mutex":
@@ -255,6 +292,9 @@ def check_C05(ctx, unit, config=""):
             for fld in r["fields"]:
                 if fld.get("rt") in GUARD_CLASSES:
                     l3bad.append("%s has a guard as a data member (%s)" % (r["qn"], fld["n"]))
+        ctx.inst("L5.update-in-one-section", "frg::slab_pool::<all members>%s%s" % (inst[len(POOL):], config), not l5bad, fns[0].loc,
+                 "; ".join(sorted(set(l5bad))[:2]) if l5bad else
+                 "%d plain assignments to protected fields, none computed from a self-locking accessor" % n_l5[0])
         ctx.inst("L3.guards-only", "frg::slab_pool::<all members>" + config, not l3bad, "",
                  "; ".join(l3bad) if l3bad else "%d functions of %s examined" % (len(fns), inst))
     # acyclicity
@@ -385,8 +425,12 @@ def check_fallible(ctx, rule, unit, fn, calls, label, allowed_in_null=()):
                 for x in fn.node(blk.cond).walk():
                     cond_ids.add(x.id)
 
+        cur_alias = [None]      # a local that holds a plain copy of the result on the current path (`result = new_p;`)
+
         def is_x(n):
-            return place_of(n, alias) == place
+            if place_of(n, alias) == place:
+                return True
+            return cur_alias[0] is not None and place_of(n, alias) == (cur_alias[0], None)
 
         def harmless_read(n):
             """The read only feeds arithmetic whose result goes into a local (or a field of a local): nothing is
@@ -403,11 +447,47 @@ def check_fallible(ctx, rule, unit, fn, calls, label, allowed_in_null=()):
                 q, hops = fn.parent(q), hops + 1
             return False
 
-        def transfer(n, s):
+        # locals computed from the result before it is tested (the aligned address from the raw mapping): "nothing is
+        # passed on or dereferenced before the test" covers them too -- unpoison(address, ...) ahead of `if(!sb_base)`
+        derived = set()
+        for y in fn.all_nodes():
+            tgt, src = None, None
+            if y.kind == "BinaryOperator" and y.op == "=" and y.id != bind.id:
+                tgt, src = place_of(y.children[0], alias), y.children[1]
+            elif y.kind == "DeclStmt":
+                for d_ in y.get("decls", []):
+                    if "init" in d_ and any(z.kind in ("DeclRefExpr", "MemberExpr") and is_x(z) for z in fn.node(d_["init"]).walk()):
+                        derived.add((d_["d"], None))
+            if tgt is not None and tgt != place and src is not None and any(z.kind in ("DeclRefExpr", "MemberExpr") and is_x(z) for z in src.walk()):
+                derived.add(tgt)
+
+        def transfer(n, s2):
+            s, al = s2
+            if n.kind == "BinaryOperator" and n.op == "=" and n.id != bind.id:
+                lp = place_of(n.children[0], alias)
+                if lp is not None and lp[1] is None and lp != place:
+                    cur_alias[0] = al
+                    if s is not None and is_x(n.children[1]) and std_unwrap(n.children[1]).kind in ("DeclRefExpr", "MemberExpr"):
+                        return [(s, lp[0])]
+                    if al is not None and lp[0] == al:
+                        return [(s, None)]
+            cur_alias[0] = al
+            return [(r, al) for r in transfer0(n, s)]
+
+        def transfer0(n, s):
             if n.id == bind.id:
                 return ["untested"]
             if s is None:
                 return [s]
+            if s == "untested" and n.kind == "ReturnStmt" and n.child("val") is not None and is_x(n.child("val").strip()):
+                return ["propagated"]       # handed to the caller untested: its nullness is the caller's to test
+            if s == "untested" and derived and n.kind in ("DeclRefExpr", "MemberExpr") and place_of(n, alias) in derived \
+                    and n.id not in cond_ids:
+                par = fn.parent(n)
+                is_lhs = par is not None and par.kind == "BinaryOperator" and par.op == "=" and par.children[0].id == n.id
+                if not is_lhs and not harmless_read(n):
+                    problems.append("%s, computed from the untested result, is used at %s before the result was tested" % (
+                        canon(n).split("#")[0], n.loc))
             # reassignment kills tracking
             w = None
             if n.kind == "BinaryOperator" and n.op == "=" and is_x(n.children[0]) and n.id != bind.id:
@@ -463,7 +543,12 @@ def check_fallible(ctx, rule, unit, fn, calls, label, allowed_in_null=()):
                 return [s]
             return [s]
 
-        def refine(cond, truth, s):
+        def refine(cond, truth, s2):
+            s, al = s2
+            cur_alias[0] = al
+            return [(r, al) for r in refine0(cond, truth, s)]
+
+        def refine0(cond, truth, s):
             if s in ("null", "null-returned", "nonnull"):
                 # a later test of the same place (the caller's own test after a folded helper already tested it) prunes the
                 # arm that contradicts what is known
@@ -489,14 +574,16 @@ def check_fallible(ctx, rule, unit, fn, calls, label, allowed_in_null=()):
                 return ["null"]
             return [s]
 
-        _, ex = flow.run(fn, [None], transfer, refine)
+        _, ex = flow.run(fn, [(None, None)], transfer, refine)
+        ex = {e[0] for e in ex}
         if "untested" in ex:
             problems.append("a path reaches the function exit with the result never tested")
-        if not tested[0] and not problems:
+        if not tested[0] and not problems and "propagated" not in ex:
             problems.append("no failure arm returning null was found")
         ctx.inst(rule, names[call.id], not problems, call.loc,
                  "; ".join(sorted(set(problems))) if problems else
-                 "bound to a local, tested before use, failure arm returns null with no writes/calls", fn)
+                 ("bound to a local and returned unchanged (nullness propagates)" if not tested[0] else
+                  "bound to a local, tested before use, failure arm returns null with no writes/calls"), fn)
 
 
 def check_C04(ctx, unit):
@@ -538,9 +625,9 @@ def check_C04(ctx, unit):
                 from .rules_slab2 import realloc_exit_poisoned
                 left = realloc_exit_poisoned(unit, fns, f, pol)
                 ctx.inst("N.realloc-alloc", "%s::realloc: the source block when null is returned%s" % (POOL, inst[len(POOL):]), not left, f.loc,
-                         ("the return at %s is reached with the caller's block poisoned and not freed: after a failed moving "
-                          "realloc the still-live source block is inaccessible" % left[0]) if left else
-                         "no return is reached with the caller's block poisoned unless it was freed", f)
+                         ("the return at %s: a failed moving realloc must leave the still-live source block exactly as "
+                          "accessible as it was" % left[0]) if left else
+                         "every return is reached with the caller's block untouched, resized in place or freed", f)
         bad = []
         for f in fns:
             for n in f.events():
